@@ -16,9 +16,12 @@ Tie to the code:
     no model involved; values compared canonically: ints, float bit patterns, addresses and
     ctypes of cdata, UTF-16 units for 16-bit characters), and both against the Lean driver.
 """
+import json
 import os
+import signal
 import struct
 import sys
+import traceback
 
 import common
 from common import InfraError
@@ -45,7 +48,10 @@ RULE = ("item type drawn from all integer types of every size and sign, enums, _
         "data/function pointers, char/wchar_t/char16_t/char32_t, small structs/unions/arrays, and unsized items; contents = random "
         "bytes biased to boundary patterns (00/FF/7F/80, _Bool bytes mostly 0/1 with some others, NaN/inf/subnormal floats, "
         "surrogates and out-of-range char32 units); start = 64-byte-aligned buffer + k with k = 0 half of the time else 1..15, or a "
-        "fresh ffi.new array; n in 0..64; non-trivial when n >= 1; distinct = distinct (type, k, n, contents)")
+        "fresh ffi.new array; n in 0..64; every run first covers each (item type x start class {array, aligned, offset-but-aligned, "
+        "misaligned-for-item} x length class {0, 1, 2-8, 9-64}) cell once (twice for _Bool: valid / with an invalid byte, and for "
+        "4-byte characters: code points / with an out-of-range unit), counts recorded as cell:* in the distribution; "
+        "non-trivial when n >= 1; distinct = distinct (type, k, n, contents)")
 ASSUMPTIONS = ["x86-64 SysV LP64, little endian", "sizeof(long double) = 16 (else the double fast path would apply to long double)"]
 TRUSTED_EXTRA = ["translate/unpack_table.py: regex extraction of the casenum selection and reader switch of b_unpack"]
 
@@ -181,6 +187,69 @@ def gen_case(rng, items):
     case.update(n=n, k=k, mem=content.hex(), container=container)
     return case
 
+
+
+LEN_CLASSES = {"n0": (0, 0), "n1": (1, 1), "n2-8": (2, 8), "n9-64": (9, 64)}
+START_CLASSES = ["array", "aligned", "offset-but-aligned", "misaligned-for-item"]
+
+
+def gen_grid(rng, items):
+    """Every (item type x start class x length class) cell once per run -- twice (valid / invalid contents) for
+    _Bool and the 4-byte character types; contents random within the class.  -> [(cell name, case)]"""
+    out, seen = [], set()
+    for decl, ptr, kind, size, align in items:
+        if (decl, kind) in seen:
+            continue
+        seen.add((decl, kind))
+        base = {"item": decl, "ptr": ptr, "kind": kind, "size": size, "align": align}
+        if kind == "unsized":
+            for n in (0, 1, 2):
+                out.append(("%s|cast|n%d" % (decl, n), dict(base, n=n, k=0, mem="00" * 16, container="cast")))
+            continue
+        for start in START_CLASSES:
+            if start == "misaligned-for-item" and align <= 1:
+                continue
+            for lname, (lo, hi) in LEN_CLASSES.items():
+                contents = ["random"]
+                if kind == "bool" and hi >= 1:
+                    contents = ["valid", "invalid-byte"]
+                if kind == "char" and size == 4 and hi >= 1:
+                    contents = ["code-points", "out-of-range-unit"]
+                for cc in contents:
+                    n = rng.randint(lo, hi)
+                    if cc == "valid":
+                        content = bytes(rng.choice([0, 1]) for _ in range(n))
+                    elif cc == "invalid-byte":
+                        b = [rng.choice([0, 1]) for _ in range(n)]
+                        b[rng.randrange(n)] = rng.choice([2, 3, 0x80, 0xFF, rng.randint(2, 255)])
+                        content = bytes(b)
+                    elif cc == "code-points":
+                        content = b"".join(struct.pack("<I", rng.choice([rng.randint(0, 0x10FFFF), rng.randint(0xD800, 0xDFFF),
+                                                                        0x41, 0, 0x10FFFF])) for _ in range(n))
+                    elif cc == "out-of-range-unit":
+                        u = [rng.randint(0, 0x10FFFF) for _ in range(n)]
+                        u[rng.randrange(n)] = rng.choice([0x110000, 0xFFFFFFFF, 0x80000000, rng.randint(0x110000, 0xFFFFFFFF)])
+                        content = struct.pack("<%dI" % n, *u)
+                    else:
+                        elems = [gen_elem(rng, kind, size, decl) for _ in range(n)]
+                        if kind in ("signed", "unsigned", "pointer"):
+                            # every integer cell sees the all-ones and the sign-bit-only patterns
+                            if n >= 1:
+                                elems[rng.randrange(n)] = b"\xff" * size
+                            if n >= 2:
+                                elems[0 if elems[0] != b"\xff" * size else 1] = b"\x00" * (size - 1) + b"\x80"
+                        content = b"".join(elems)
+                    if start == "array":
+                        container, k = "array", 0
+                    elif start == "aligned":
+                        container, k = "cast", 0
+                    elif start == "offset-but-aligned":
+                        container, k = "cast", align * rng.randint(1, max(1, 15 // align))
+                    else:
+                        container, k = "cast", rng.choice([x for x in range(1, 16) if x % align])
+                    out.append(("%s|%s|%s%s" % (decl, start, lname, "" if cc == "random" else "|" + cc),
+                                dict(base, n=n, k=k, mem=content.hex(), container=container)))
+    return out
 
 # ---------------------------------------------------------------- running one case
 
@@ -337,20 +406,65 @@ def nontrivial_key(case):
     return (case["item"], case["k"], case["n"], case["container"], case["mem"])
 
 
+def run_guarded(cases):
+    """Execute the cases in a forked child (a broken reader may walk out of the buffer and crash);
+    -> (results, crashed) as in corr_C15."""
+    r, w = os.pipe()
+    pid = os.fork()
+    if pid == 0:
+        code = 0
+        try:
+            os.close(r)
+            runner = Runner()
+            with os.fdopen(w, "w") as out:
+                for i, case in enumerate(cases):
+                    out.write("S %d\n" % i)
+                    out.flush()
+                    obs, problems = runner.run(case)
+                    out.write("R " + json.dumps([obs, problems]) + "\n")
+                    out.flush()
+        except BaseException:
+            traceback.print_exc()
+            code = 3
+        finally:
+            os._exit(code)
+    os.close(w)
+    results, started = [], -1
+    with os.fdopen(r) as inp:
+        for line in inp:
+            if line.startswith("S "):
+                started = int(line[2:])
+            elif line.startswith("R "):
+                obs, problems = json.loads(line[2:])
+                results.append(([tuple(o) for o in obs], [tuple(p) for p in problems]))
+    _, status = os.waitpid(pid, 0)
+    if os.WIFSIGNALED(status):
+        sig = os.WTERMSIG(status)
+        try:
+            name = signal.Signals(sig).name
+        except ValueError:
+            name = str(sig)
+        return results, (started, "the interpreter was killed by %s while executing this case" % name)
+    if os.WEXITSTATUS(status) != 0 or len(results) != len(cases):
+        raise InfraError("case runner failed (exit %d) after %d of %d cases" % (os.WEXITSTATUS(status), len(results), len(cases)))
+    return results, None
+
+
 def run_cases(ctx, n, with_driver, fixed=()):
-    runner = Runner()
+    items = Runner().items
+    todo = [(None, c) for c in fixed] + gen_grid(ctx.rng, items)
+    ngrid = len(todo)
+    todo += [(None, gen_case(ctx.rng, items)) for _ in range(n)]
+    results, crashed = run_guarded([c for _, c in todo])
     lines, expect = [], []
-    todo = list(fixed)
-    for i in range(n):
-        todo.append(None)
-    for case in todo:
-        if case is None:
-            case = gen_case(ctx.rng, runner.items)
-        obs, problems = runner.run(case)
-        ctx.case(nontrivial_key(case), sample=case if len(case["mem"]) <= 64 else None)
-        ctx.count("kind:" + case["kind"] + (":%d" % case["size"] if case["kind"] in ("signed", "unsigned", "float", "char") else ""))
-        ctx.count("start:" + ("array" if case["container"] == "array" else "aligned" if case["k"] == 0
-                              else "misaligned-for-item" if case["k"] % max(1, case["align"]) else "offset-but-aligned"))
+    for idx, ((cell, case), (obs, problems)) in enumerate(zip(todo, results)):
+        ctx.case(nontrivial_key(case), sample=case if idx >= ngrid and len(case["mem"]) <= 64 else None)
+        if cell:
+            ctx.count("cell:" + cell)
+        else:
+            ctx.count("kind:" + case["kind"] + (":%d" % case["size"] if case["kind"] in ("signed", "unsigned", "float", "char") else ""))
+            ctx.count("start:" + ("array" if case["container"] == "array" else "aligned" if case["k"] == 0
+                                  else "misaligned-for-item" if case["k"] % max(1, case["align"]) else "offset-but-aligned"))
         if obs and obs[0][1].startswith("err"):
             ctx.count("outcome:" + obs[0][1])
         for tag, text in problems:
@@ -358,6 +472,10 @@ def run_cases(ctx, n, with_driver, fixed=()):
         for line, impl in obs:
             lines.append(line)
             expect.append((case, impl))
+    if crashed:
+        idx, text = crashed
+        ctx.fail(todo[idx][1], text)
+        ctx.count("crashed")
     ctx.count("driver-lines", len(lines))
     if not with_driver:
         return
